@@ -251,6 +251,20 @@ theorem solver_projection_eq_types (bs cf : Params ℝ) (sens : V3 ℝ) :
        let b := BsVec.fromCart (bsPose.invRotateTranslate (cfPose.rotateTranslate sens))
        (b.h, b.v)) := calcAnglePair_eq_types bs cf sens
 
+/-- `solver_projection_eq_types` has no side condition: it covers sensors in front of, beside (x = 0) and BEHIND the base
+station.  Behind it (x < 0 in the base-station frame) both paths return the full-circle angle `atan2(y, x)`, which is
+`arctan(y/x) ± π` — never the projection-plane angle `arctan(y/x)`; so replacing `arctan2(y, x)` by `arctan(y / x)` in either
+path breaks the equality exactly there. -/
+theorem angle_behind_base_station (y x : ℝ) (hx : x < 0) :
+    (RealOps.atan2 y x : ℝ) = (if 0 ≤ y then Real.arctan (y / x) + Real.pi else Real.arctan (y / x) - Real.pi) ∧
+    (RealOps.atan2 y x : ℝ) ≠ Real.arctan (y / x) := by
+  have hpi := Real.pi_pos
+  have e : (RealOps.atan2 y x : ℝ) = (if 0 ≤ y then Real.arctan (y / x) + Real.pi else Real.arctan (y / x) - Real.pi) := by
+    simp [atan2R, not_lt.mpr hx.le, hx]
+  refine ⟨e, ?_⟩
+  rw [e]
+  split <;> intro h <;> linarith
+
 /-! ## D18: a zero *computed* angle with a non-zero rotation vector
 
 In binary64 `theta = np.linalg.norm(rot_vecs)` underflows to 0 for non-zero vectors with |r| < 2.2e-162; then
